@@ -18,36 +18,46 @@ from pyglove.ext import evolution as evo
 G = pg.geno
 
 TIERS = {
-    'quick': dict(shards=8, Ns=[10], W=3, M=3, spaces=8, timeout_s=600),
-    'thorough': dict(shards=16, Ns=[6, 12, 24], W=3, M=4, spaces=8,
-                     timeout_s=3000, case_timeout_s=600),
+    # `per_config` = number of spaces every configuration is run on (rotating
+    # through the spaces it admits, so that every space is used).
+    'quick': dict(shards=8, Ns=[10], W=3, M=3, per_config=3, timeout_s=600),
+    'thorough': dict(shards=16, Ns=[6, 12, 24], W=3, M=4, per_config=6,
+                     timeout_s=3000, case_timeout_s=900),
 }
 LEVEL = 'fault_enumeration'
 EXHAUSTIVE = {'quick': False, 'thorough': False}
-RULE = ('case = (algorithm configuration, search space, run length N, feedback '
-        'pattern); inside a case EVERY crash point is executed: pattern "tail" = '
-        'for every w in 0..W and every k in 0..N a fresh uninterrupted run of k '
-        'proposals whose last min(w,k) feedbacks are missing; pattern "lag" = for '
-        'every w one run of N proposals in which feedback i arrives after '
-        'proposal i+w, stopped after every proposal. At each crash point the '
-        'history (DNA with metadata, reward or None) goes through JSON, a fresh '
-        'instance is set up and recovers it, and proposal/feedback counts at '
-        'every wrapper level, population with fitness, the de-duplication memory '
-        '(probe proposals through a harness-driven inner generator) and, for '
-        'history-determined algorithms, the next M proposals are compared. '
-        'Algorithm seeds and sizes are drawn from the case RNG. Non-trivial = '
-        'the case compared at least one crash point with k >= 2; distinct by '
-        '(configuration, parameters, space, N, pattern, longest live history).')
+RULE = ('case = (algorithm configuration, search space, run length N); inside a '
+        'case EVERY crash point (k proposals, the last min(w,k) feedbacks '
+        'missing) for k in 0..N and w in 0..W is executed on two feedback '
+        'schedules: "lag" = for every w one uninterrupted run of N proposals in '
+        'which feedback i arrives after proposal i+w, stopped after every '
+        'proposal; "tail" (configurations whose state depends on feedback) = '
+        'for every j a run of j answered proposals followed by up to W '
+        'unanswered ones, stopped after each of those (harness-driven '
+        'de-duplication configurations: a fresh run for every (k, w), followed '
+        'by a destructive probe of the de-duplication memory). At each crash '
+        'point the history (DNA with metadata, reward or None) goes through '
+        'JSON, a fresh instance is set up and recovers it, and proposal/'
+        'feedback counts at every wrapper level, population with fitness, the '
+        'de-duplication memory (probe proposals through a harness-driven inner '
+        'generator) and, for history-determined algorithms, the next M '
+        'proposals are compared. Algorithm seeds and sizes are drawn from the '
+        'case RNG. Non-trivial = the case compared at least one crash point '
+        'with k >= 2; distinct by (configuration, parameters, space, N, '
+        'longest live history).')
 REQUIRED_COUNTERS = ['crash_points', 'crash_points_pending', 'count_compares',
                      'population_compares', 'continuation_compares',
                      'dedup_memory_probes']
 ASSUMPTIONS = [
-    'feedback is given in proposal order (as the quantifier states); rewards are a deterministic function of the DNA',
+    'feedback is given in proposal order (as the quantifier states); rewards are a deterministic function of the DNA (for NEAT: of the DNA and its position in the history, see below)',
     'the history is persisted at the crash point: each DNA (with the metadata the algorithm attached so far) and each reward go through pg.to_json_str/from_json_str',
     'Sweeping (alone or under Deduping) is not run on spaces with float decision points (documented as unsupported by next_dna)',
     'continuation is compared only for sweeping, seeded random and Deduping over them; evolution-based algorithms are compared on counts and population with fitness',
     'state of the population initializer of an Evolution and its global_state are not part of the compared state (not named by the property)',
+    'proposals of an inner generator that Deduping dropped as duplicates are not in the persisted history: the recovered inner num_proposals may be lower than the uninterrupted one by at most their number',
     'de-duplication memory is probed with a harness-defined inner DNAGenerator (the documented extension point) whose next proposal the harness dictates',
+    'an exception of the UNINTERRUPTED run (e.g. NEAT divides by zero when all members of a generation have the same fitness; an Evolution without any evaluated individual cannot reproduce) ends that run and is counted, not reported: the property speaks about recovery only. NEAT rewards get a position-dependent tie-break so that this is rare',
+    'Deduping does not forward multi_objective, so Deduping(nsga2) is fed single float rewards (all that DNAGenerator.feedback and pg.sample admit for it)',
 ]
 
 
@@ -60,25 +70,30 @@ def _c(n):
 
 
 def make_spaces():
-  """[(name, spec, has_float)] — small spaces so that duplicates are frequent."""
+  """[(name, spec, has_float, number of DNA nodes)] — small spaces so that
+  duplicates are frequent."""
   return [
-      ('oneof3', G.space([G.oneof(_c(3))]), False),
+      ('oneof3', G.space([G.oneof(_c(3))]), False, 1),
       ('oneof4-manyof2of3-oneof3',
-       G.space([G.oneof(_c(4)), G.manyof(2, _c(3), distinct=True), G.oneof(_c(3))]), False),
+       G.space([G.oneof(_c(4)), G.manyof(2, _c(3), distinct=True), G.oneof(_c(3))]), False, 6),
       ('conditional+float',
        G.space([G.oneof([G.space([G.oneof(_c(2))]), G.constant(), G.constant()]),
-                G.floatv(0.0, 1.0)]), True),
-      ('oneof3-oneof2', G.space([G.oneof(_c(3)), G.oneof(_c(2))]), False),
+                G.floatv(0.0, 1.0)]), True, 4),
+      ('oneof3-oneof2', G.space([G.oneof(_c(3)), G.oneof(_c(2))]), False, 3),
       ('manyof2of4-sorted',
-       G.space([G.manyof(2, _c(4), distinct=True, sorted=True)]), False),
-      ('oneof2', G.space([G.oneof(_c(2))]), False),
+       G.space([G.manyof(2, _c(4), distinct=True, sorted=True)]), False, 3),
+      ('oneof2', G.space([G.oneof(_c(2))]), False, 1),
       ('nested-conditional',
        G.space([G.oneof([G.space([G.oneof(_c(2)), G.oneof(_c(2))]),
                          G.space([G.manyof(2, _c(2), distinct=False)]),
                          G.constant()]),
-                G.oneof(_c(2))]), False),
-      ('float-oneof2', G.space([G.floatv(-1.0, 1.0), G.oneof(_c(2))]), True),
+                G.oneof(_c(2))]), False, 5),
+      ('float-oneof2', G.space([G.floatv(-1.0, 1.0), G.oneof(_c(2))]), True, 3),
   ]
+
+
+# Harness-driven de-duplication configurations enumerate the space.
+PUPPET_MAX_WEIGHT = 5
 
 
 # ---------------------------------------------------------------------------
@@ -128,9 +143,14 @@ def auto_reward_mo(rewards):
   return (float(1000 * len(rewards) + 10 * len(known)), float(len(known)))
 
 
-def reward_of(algo, dna):
+def reward_of(algo, dna, ordinal=0, tiebreak=False):
+  """Reward of the `ordinal`-th proposal of a run (a function of the DNA)."""
   s = sum(dna.to_numbers())
   r = float(int(s * 2) % 5) * 0.5 + 0.1
+  if tiebreak:
+    # NEAT allocates offspring proportionally to (fitness - minimum) and
+    # divides by zero when a whole generation has one fitness value.
+    r += ordinal / 1024.0
   return (r, 3.0 - r + float(int(s) % 2)) if algo.multi_objective else r
 
 
@@ -163,6 +183,12 @@ def _p_pop(rng):
   return {'seed': rng.randint(0, 999), 'population_size': rng.randint(2, 4)}
 
 
+def _p_neat(rng):
+  # NEAT reproduces from the evaluated members of the latest generation only
+  # and needs two of them: the population must exceed W + 1.
+  return {'seed': rng.randint(0, 999), 'population_size': rng.randint(5, 6)}
+
+
 def _regevo(p):
   return evo.regularized_evolution(
       evo.mutators.Uniform(seed=p['seed']), population_size=p['population_size'],
@@ -185,8 +211,13 @@ def _neat(p):
                   population_size=p['population_size'], seed=p['seed'])
 
 
+# Deduping gives up after this many consecutive duplicates (the default, 100,
+# only makes exhausted spaces expensive).
+ATTEMPTS = 12
+
 Config = collections.namedtuple(
-    'Config', 'name family make params determined nofloat')
+    'Config', 'name family make params determined nofloat feedback',
+    defaults=(False,))
 
 CONFIGS = [
     Config('Sweeping', 'Sweeping', lambda p: G.Sweeping(), _p_none, True, True),
@@ -194,36 +225,41 @@ CONFIGS = [
            lambda p: G.Random(seed=p['seed']), _p_seed, True, False),
     Config('Random[unseeded]', 'Random[unseeded]',
            lambda p: G.Random(), _p_none, False, False),
-    Config('regularized_evolution', 'regularized_evolution', _regevo, _p_regevo, False, False),
-    Config('hill_climb', 'hill_climb', _hill, _p_hill, False, False),
-    Config('nsga2', 'nsga2', _nsga2, _p_pop, False, False),
-    Config('neat', 'neat', _neat, _p_pop, False, False),
+    Config('regularized_evolution', 'regularized_evolution', _regevo, _p_regevo, False, False, True),
+    Config('hill_climb', 'hill_climb', _hill, _p_hill, False, False, True),
+    Config('nsga2', 'nsga2', _nsga2, _p_pop, False, False, True),
+    Config('neat', 'neat', _neat, _p_neat, False, False, True),
     Config('Deduping(Sweeping)', 'Deduping(Sweeping)',
-           lambda p: G.Deduping(G.Sweeping()), _p_none, True, True),
+           lambda p: G.Deduping(G.Sweeping(), max_proposal_attempts=ATTEMPTS), _p_none, True, True),
     Config('Deduping(Sweeping,hash_fn)', 'Deduping(Sweeping)',
-           lambda p: G.Deduping(G.Sweeping(), hash_fn=hash_sum), _p_none, True, True),
+           lambda p: G.Deduping(G.Sweeping(), hash_fn=hash_sum,
+                                max_proposal_attempts=ATTEMPTS), _p_none, True, True),
     Config('Deduping(Random[seeded])', 'Deduping(Random[seeded])',
-           lambda p: G.Deduping(G.Random(seed=p['seed'])), _p_seed, True, False),
+           lambda p: G.Deduping(G.Random(seed=p['seed']),
+                                max_proposal_attempts=ATTEMPTS), _p_seed, True, False),
     Config('Deduping(Random[seeded],hash_fn)', 'Deduping(Random[seeded])',
-           lambda p: G.Deduping(G.Random(seed=p['seed']), hash_fn=hash_sum),
+           lambda p: G.Deduping(G.Random(seed=p['seed']), hash_fn=hash_sum,
+                                max_proposal_attempts=ATTEMPTS),
            _p_seed, True, False),
     Config('Deduping(Random[seeded],max_duplicates=2)',
-           'Deduping(Random[seeded],max_duplicates>1)',
-           lambda p: G.Deduping(G.Random(seed=p['seed']), max_duplicates=2),
+           'Deduping(Random[seeded])',
+           lambda p: G.Deduping(G.Random(seed=p['seed']), max_duplicates=2,
+                                max_proposal_attempts=ATTEMPTS),
            _p_seed, True, False),
     Config('Deduping(Random[unseeded])', 'Deduping(Random[unseeded])',
-           lambda p: G.Deduping(G.Random()), _p_none, False, False),
+           lambda p: G.Deduping(G.Random(), max_proposal_attempts=ATTEMPTS), _p_none, False, False),
     Config('Deduping(regularized_evolution)', 'Deduping(regularized_evolution)',
-           lambda p: G.Deduping(_regevo(p)), _p_regevo, False, False),
+           lambda p: G.Deduping(_regevo(p), max_proposal_attempts=ATTEMPTS), _p_regevo, False, False, True),
     Config('Deduping(regularized_evolution,auto_reward_fn,max_duplicates=2)',
            'Deduping(regularized_evolution,max_duplicates>1)',
            lambda p: G.Deduping(_regevo(p), auto_reward_fn=auto_reward, max_duplicates=2),
-           _p_regevo, False, False),
+           _p_regevo, False, False, True),
     Config('Deduping(hill_climb,hash_fn)', 'Deduping(hill_climb)',
-           lambda p: G.Deduping(_hill(p), hash_fn=hash_sum), _p_hill, False, False),
+           lambda p: G.Deduping(_hill(p), hash_fn=hash_sum,
+                                max_proposal_attempts=ATTEMPTS), _p_hill, False, False, True),
     Config('Deduping(nsga2,auto_reward_fn)', 'Deduping(nsga2)',
            lambda p: G.Deduping(_nsga2(p), auto_reward_fn=auto_reward_mo),
-           _p_pop, False, False),
+           _p_pop, False, False, True),
     Config('Deduping(puppet)', 'Deduping(puppet)',
            lambda p: G.Deduping(Puppet()), _p_none, False, False),
     Config('Deduping(puppet,hash_fn,max_duplicates=2)',
@@ -293,26 +329,36 @@ class Live:
     self.history = []          # [dna, reward or None]
     self.pending = collections.deque()
     self.exhausted = False
+    self.answered = 0
     self.all_dnas, self.script_rng = all_dnas, script_rng
 
   def propose(self):
     """One proposal; False when the algorithm has no more proposals."""
     ctx = self.ctx
+    if self.exhausted:
+      return False
     if is_puppet(self.cfg):
       # The inner generator proposes a few harness-chosen candidates; the
       # wrapper takes the first it does not de-duplicate.
       self.algo.generator.load(
           [self.script_rng.choice(self.all_dnas) for _ in range(4)])
-    ctx.label = 'live-propose:' + self.cfg.family
     try:
       dna = self.algo.propose()
     except StopIteration:
-      ctx.label = None
       if is_puppet(self.cfg):
         return True            # every candidate was a duplicate: no proposal
       self.exhausted = True
       return False
-    ctx.label = None
+    except Exception as e:  # pylint: disable=broad-except
+      if not lib_raised(e):
+        raise
+      # The uninterrupted run itself failed: nothing to compare from here on
+      # (the property is about recovery, see ASSUMPTIONS).
+      ctx.counters['live_runs_ended_by_library_error'] += 1
+      ctx.counters[f'live_runs_ended_by_library_error:{self.cfg.family}:'
+                   f'{type(e).__name__}'] += 1
+      self.exhausted = True
+      return False
     ctx.counters['live_proposals'] += 1
     entry = [dna, None]
     self.history.append(entry)
@@ -324,18 +370,21 @@ class Live:
       return
     entry = self.pending.popleft()
     dna = entry[0]
+    # As pg.sample: a proposal that carries a reward (Deduping's
+    # auto_reward_fn) is fed back with it, without evaluation.
     r = dna.metadata.get('reward') if 'dedup_key' in dna.metadata else None
     if r is not None:
       self.ctx.counters['auto_rewarded_proposals'] += 1
     else:
-      r = reward_of(self.algo, dna)
+      self.answered += 1
+      r = reward_of(self.algo, dna, self.answered, self.cfg.family == 'neat')
     self.ctx.label = 'live-feedback:' + self.cfg.family
     self.algo.feedback(dna, r)
     self.ctx.label = None
     entry[1] = r
 
 
-def recovered_instance(ctx, cfg, params, spec, live, mech):
+def recovered_instance(ctx, cfg, params, spec, live):
   """Fresh instance + recover(JSON history); None if recover raised."""
   h = persist(live.history)
   b = cfg.make(params)
@@ -348,7 +397,8 @@ def recovered_instance(ctx, cfg, params, spec, live, mech):
     if not lib_raised(e):
       raise
     ctx.label = None
-    ctx.violation('recover-raises', mech,
+    ctx.counters['recover_raised'] += 1
+    ctx.violation('recover-raises', cfg.family,
                   f'{type(e).__name__}: {e!s:.300}', witness(cfg, params, live))
     return None
   ctx.label = None
@@ -373,10 +423,18 @@ def compare_state(ctx, cfg, params, live, b, pending_sfx):
     # below it to the wrapper that is responsible for recovering its inner
     # generator.
     mech = cfg.family + pending_sfx if depth == 0 else 'Deduping.generator'
+    # Proposals of an inner generator that its wrapper dropped as duplicates
+    # are not in the history: the recovered inner count may lack them.
+    dropped = 0
+    if depth:
+      dropped = max(0, la['num_proposals'] - sa[depth - 1]['num_proposals'])
+      if dropped:
+        c['count_compares_with_dropped_inner_proposals'] += 1
     for clause, key in (('num-proposals', 'num_proposals'),
                         ('num-feedbacks', 'num_feedbacks')):
       c['count_compares'] += 1
-      if la[key] != lb[key]:
+      slack = dropped if key == 'num_proposals' else 0
+      if not la[key] - slack <= lb[key] <= la[key]:
         ok = False
         ctx.violation(clause, mech,
                       f'level {depth}: uninterrupted {key}={la[key]}, recovered {lb[key]}',
@@ -437,7 +495,35 @@ def probe_memory(ctx, cfg, algo, probes):
   return out
 
 
-def check_crash_point(ctx, cfg, params, spec, live, k, destructive, m):
+def remembered(probe, max_dup):
+  """Number of entries the memory held for the probed DNA before the probe."""
+  _, accepted, end = probe
+  if end == 'deduplicated':
+    return max_dup - accepted
+  if isinstance(end, tuple):                 # ('auto-reward', auto_reward(...))
+    return int(end[1] // 1000) - accepted
+  return -1                                  # never de-duplicated
+
+
+def memory_mechanism(live, pa, pb):
+  """Mechanism of a dedup-memory difference, from harness facts only."""
+  acct = 'accounted-at-feedback' if live.algo.needs_feedback else 'accounted-at-proposal'
+  pend = '+pending' if live.pending else ''
+  md = live.algo.max_duplicates
+  ra = [remembered(x, md) for x in pa]
+  rb = [remembered(x, md) for x in pb]
+  more = any(y > x for x, y in zip(ra, rb))
+  less = any(y < x for x, y in zip(ra, rb))
+  if more and not less:
+    how = 'recovered-remembers-more'
+  elif less and not more:
+    how = 'recovered-remembers-less'
+  else:
+    how = 'recovered-remembers-differently'
+  return f'{acct}{pend}:{how}'
+
+
+def check_crash_point(ctx, cfg, params, spec, live, path, destructive, m):
   """Recovers at the current point of `live`; returns the recovered instance."""
   c = ctx.counters
   j = len(live.pending)
@@ -445,10 +531,11 @@ def check_crash_point(ctx, cfg, params, spec, live, k, destructive, m):
   if j:
     c['crash_points_pending'] += 1
   c['crash_points:' + cfg.family] += 1
-  ctx.seen('crash_point_kinds', (cfg.name, len(live.history), j))
+  c[f'crash_points:{path}:missing={j}'] += 1
+  ctx.seen('crash_point_kinds', (cfg.name, path, len(live.history), j))
   sfx = '+pending' if (j and live.algo.needs_feedback) else ''
   mech = cfg.family + sfx
-  b = recovered_instance(ctx, cfg, params, spec, live, mech)
+  b = recovered_instance(ctx, cfg, params, spec, live)
   if b is None:
     return None
   compare_state(ctx, cfg, params, live, b, sfx)
@@ -463,20 +550,21 @@ def check_crash_point(ctx, cfg, params, spec, live, k, destructive, m):
                     f'uninterrupted run continues with {ca}, recovered with {cb}',
                     witness(cfg, params, live))
   if is_puppet(cfg):
-    # Probe every DNA that occurs in the history plus a few that do not.
+    # Probe the DNAs that occur in the history (latest first) plus one that
+    # does not.
     seen, probes = set(), []
-    for d, _ in live.history:
+    for d, _ in reversed(live.history):
       if numbers(d) not in seen:
         seen.add(numbers(d))
         probes.append(d)
     fresh = [d for d in live.all_dnas if numbers(d) not in seen]
-    probes = probes[-6:] + fresh[:2]
+    probes = probes[:4] + fresh[:1]
     c['dedup_memory_probes'] += len(probes)
     pa = probe_memory(ctx, cfg, live.algo, probes)
     pb = probe_memory(ctx, cfg, b, probes)
     if pa != pb:
       diff = [(x, y) for x, y in zip(pa, pb) if x != y]
-      ctx.violation('dedup-memory', mech,
+      ctx.violation('dedup-memory', memory_mechanism(live, pa, pb),
                     '(dna, accepted before de-duplication, then): uninterrupted vs '
                     f'recovered {diff!r:.600}', witness(cfg, params, live))
   return b
@@ -486,25 +574,64 @@ def check_crash_point(ctx, cfg, params, spec, live, k, destructive, m):
 # Cases
 # ---------------------------------------------------------------------------
 
+def needs_tail(cfg):
+  """Does the feedback schedule matter for the state of this configuration?"""
+  return is_puppet(cfg) or cfg.feedback
+
+
+def case_cost(cfg, weight, n):
+  """Rough relative cost of a case (for balancing the shards)."""
+  runs = 2.0 if needs_tail(cfg) else 1.0
+  if is_puppet(cfg):
+    runs = 3.0
+  if 'Random' in cfg.name or cfg.family == 'neat':
+    runs *= 2.0
+  return runs * weight * n * n
+
+
 def case_table(ctx):
-  spaces = make_spaces()[:ctx.params['spaces']]
-  table = []
+  """[(config index, space index, N)], the same in every shard."""
+  spaces = make_spaces()
+  per = int(ctx.params['per_config'])
+  table, turn = [], 0
   for ci, cfg in enumerate(CONFIGS):
-    for si, (_, _, has_float) in enumerate(spaces):
-      if cfg.nofloat and has_float:
-        continue
+    admitted = [si for si, sp in enumerate(spaces)
+                if not (cfg.nofloat and sp[2])
+                and not (is_puppet(cfg) and sp[3] > PUPPET_MAX_WEIGHT)]
+    chosen = []
+    for _ in range(min(per, len(admitted))):
+      # Rotate through all spaces over the configurations.
+      while True:
+        si = turn % len(spaces)
+        turn += 1
+        if si in admitted and si not in chosen:
+          chosen.append(si)
+          break
+    for si in chosen:
       for n in ctx.params['Ns']:
-        for pattern in ('tail', 'lag'):
-          table.append((ci, si, n, pattern))
+        table.append((ci, si, n))
   return table
 
 
 def setup(ctx):
-  ctx.table = [t for i, t in enumerate(case_table(ctx)) if i % ctx.nshards == ctx.shard]
-  ctx.spaces = make_spaces()
+  spaces = make_spaces()
+  table = case_table(ctx)
+  # Longest-processing-time-first assignment of the cases to the shards.
+  order = sorted(range(len(table)), key=lambda t: (-case_cost(
+      CONFIGS[table[t][0]], spaces[table[t][1]][3], table[t][2]), t))
+  load = [0.0] * ctx.nshards
+  mine = []
+  for t in order:
+    s = min(range(ctx.nshards), key=lambda x: (load[x], x))
+    load[s] += case_cost(CONFIGS[table[t][0]], spaces[table[t][1]][3], table[t][2])
+    if s == ctx.shard:
+      mine.append(table[t])
+  ctx.table = mine
+  ctx.spaces = spaces
   ctx.notes['configurations'] = [c.name for c in CONFIGS]
-  ctx.notes['spaces'] = [s[0] for s in ctx.spaces[:ctx.params['spaces']]]
-  ctx.notes['cases_total'] = len(case_table(ctx))
+  ctx.notes['spaces'] = [s[0] for s in spaces]
+  ctx.notes['cases_total'] = len(table)
+  ctx.notes['configuration_x_space'] = len({(a, b) for a, b, _ in table})
 
 
 def cases(ctx):
@@ -512,85 +639,101 @@ def cases(ctx):
 
 
 def run_case(ctx, i):
-  ci, si, n, pattern = ctx.table[i]
+  ci, si, n = ctx.table[i]
   cfg = CONFIGS[ci]
-  sname, spec, _ = ctx.spaces[si]
+  sname, spec, has_float, _ = ctx.spaces[si]
   rng = ctx.rng
   params = cfg.params(rng)
   wmax, m = ctx.params['W'], ctx.params['M']
   c = ctx.counters
-  c['cases:' + pattern] += 1
+  c['cases'] += 1
   all_dnas = []
   if is_puppet(cfg):
-    if spec.space_size > 0 and spec.space_size <= 64:
-      all_dnas = list(spec.iter_dna())
-    else:
+    if has_float:
       r2 = random.Random(rng.random())
-      all_dnas = [pg.random_dna(spec, r2) for _ in range(8)]
-  longest, deep_points = [], 0
-  sample = None
-
-  for w in range(wmax + 1):
-    if pattern == 'tail':
-      for k in range(n + 1):
-        script_rng = ctx.case_rng(i, f'script/{w}/{k}')
-        live = Live(ctx, cfg, params, spec, all_dnas, script_rng)
-        for p in range(k):
-          if not live.propose():
-            break
-          if p < k - w:
-            live.feedback_oldest()
-        check_crash_point(ctx, cfg, params, spec, live, k, True, m)
-        if len(live.history) >= 2:
-          deep_points += 1
-        if len(live.history) > len(longest):
-          longest = [numbers(d) for d, _ in live.history]
-        if sample is None and k == min(n, 5) and w == min(wmax, 1):
-          sample = witness(cfg, params, live, space=sname, N=n, pattern=pattern,
-                           crash_point=k)
-        if live.exhausted:
-          c['runs_ended_by_exhausted_space'] += 1
-          break
+      all_dnas = [pg.random_dna(spec, r2) for _ in range(6)]
     else:
-      script_rng = ctx.case_rng(i, f'script/{w}')
-      live = Live(ctx, cfg, params, spec, all_dnas, script_rng)
-      recovered = []
-      check_crash_point(ctx, cfg, params, spec, live, 0, False, m)
-      for p in range(n):
+      all_dnas = list(spec.iter_dna())
+  st = {'longest': [], 'deep': 0, 'sample': None}
+
+  def note(live, **kw):
+    if len(live.history) >= 2:
+      st['deep'] += 1
+    if len(live.history) > len(st['longest']):
+      st['longest'] = [numbers(d) for d, _ in live.history]
+    if st['sample'] is None and len(live.history) >= min(n, 4) and live.pending:
+      st['sample'] = witness(cfg, params, live, space=sname, N=n, **kw)
+
+  def new_live(salt):
+    return Live(ctx, cfg, params, spec, all_dnas, ctx.case_rng(i, salt))
+
+  # -- schedule "lag": feedback i arrives after proposal i+w -----------------
+  for w in range(wmax + 1):
+    live = new_live(f'lag/{w}')
+    recovered = []
+    check_crash_point(ctx, cfg, params, spec, live, 'lag', False, m)
+    for _ in range(n):
+      if not live.propose():
+        break
+      if len(live.pending) > w:
+        live.feedback_oldest()
+      b = check_crash_point(ctx, cfg, params, spec, live, 'lag', False, m)
+      recovered.append((len(live.history), b))
+      note(live, schedule='lag', w=w)
+    if live.exhausted:
+      c['runs_ended_early'] += 1
+    if cfg.determined and not is_puppet(cfg):
+      # The uninterrupted run goes on for M more proposals; each recovered
+      # instance must continue with what the live one proposed after its
+      # crash point.
+      for _ in range(m):
         if not live.propose():
           break
-        if len(live.pending) > w:
-          live.feedback_oldest()
-        b = check_crash_point(ctx, cfg, params, spec, live, p + 1, False, m)
-        recovered.append((len(live.history), b))
-        if len(live.history) >= 2:
-          deep_points += 1
-      if cfg.determined and not is_puppet(cfg):
-        # The uninterrupted run goes on for M more proposals; each recovered
-        # instance must continue with what the live one proposed after its
-        # crash point.
-        for _ in range(m):
-          if live.exhausted or not live.propose():
-            break
-        future = [numbers(d) for d, _ in live.history]
-        for at, b in recovered:
-          if b is None:
-            continue
-          c['continuation_compares'] += 1
-          exp = future[at:at + m]
-          if len(exp) < m and live.exhausted:
-            exp.append('stop')
-          got = next_proposals(ctx, cfg, b, m)[:len(exp)]
-          if got != exp:
-            ctx.violation('continuation', cfg.family,
-                          f'after {at} proposals the uninterrupted run continues with {exp}, '
-                          f'the recovered one with {got}', witness(cfg, params, live))
-      if len(live.history) > len(longest):
-        longest = [numbers(d) for d, _ in live.history]
-      if sample is None and w == min(wmax, 1):
-        sample = witness(cfg, params, live, space=sname, N=n, pattern=pattern)
-  if deep_points:
-    ctx.mark_nontrivial((cfg.name, sorted(params.items()), sname, n, pattern, longest))
-  ctx.seen('live_histories', (cfg.name, sname, longest))
-  if i < 2 and sample is not None:
-    ctx.sample(sample)
+      future = [numbers(d) for d, _ in live.history]
+      for at, b in recovered:
+        if b is None:
+          continue
+        c['continuation_compares'] += 1
+        exp = future[at:at + m]
+        if len(exp) < m and live.exhausted:
+          exp.append('stop')
+        got = next_proposals(ctx, cfg, b, m)[:len(exp)]
+        if got != exp:
+          ctx.violation('continuation', cfg.family,
+                        f'after {at} proposals the uninterrupted run continues with {exp}, '
+                        f'the recovered one with {got}', witness(cfg, params, live))
+
+  # -- schedule "tail": answered proposals, then unanswered ones -------------
+  if is_puppet(cfg):
+    # A fresh run for every (k, w): the probe of the memory is destructive.
+    for w in range(wmax + 1):
+      for k in range(n + 1):
+        live = new_live(f'tail/{w}/{k}')
+        for p in range(k):
+          live.propose()
+          if p < k - w:
+            live.feedback_oldest()
+        check_crash_point(ctx, cfg, params, spec, live, 'tail', True, m)
+        note(live, schedule='tail', w=w, crash_point=k)
+  elif needs_tail(cfg):
+    # (j, 0) is the crash point (j, 0) of schedule "lag" with w = 0.
+    for j in range(n):
+      live = new_live(f'tail/{j}')
+      ok = True
+      for _ in range(j):
+        ok = ok and live.propose()
+        live.feedback_oldest()
+      for w in range(1, wmax + 1):
+        if not ok or j + w > n or not live.propose():
+          break
+        last = w == wmax or j + w == n
+        check_crash_point(ctx, cfg, params, spec, live, 'tail', last, m)
+        note(live, schedule='tail', w=w, crash_point=j + w)
+      if live.exhausted:
+        c['runs_ended_early'] += 1
+
+  if st['deep']:
+    ctx.mark_nontrivial((cfg.name, sorted(params.items()), sname, n, st['longest']))
+  ctx.seen('live_histories', (cfg.name, sname, st['longest']))
+  if i < 2 and st['sample'] is not None:
+    ctx.sample(st['sample'])
